@@ -603,7 +603,12 @@ pub fn run_real(
             });
         }
         let res = catch(|| {
-            if mapped {
+            if mapped && ctx.ops.len() % 2 == 1 {
+                // borrowed container
+                let bytes: Vec<u8> = asm::to_bytes(ctx.ops.iter().copied()).collect();
+                let bm = essential_vm::bytecode::BytecodeMapped::<Op, &[u8]>::try_from(&bytes[..]).expect("serialised ops map");
+                vm.exec_bytecode(&bm, access.clone(), &ctx.views, &spy, limit)
+            } else if mapped {
                 let bm: BytecodeMapped = ctx.ops.iter().copied().collect();
                 vm.exec_bytecode(&bm, access.clone(), &ctx.views, &spy, limit)
             } else {
